@@ -983,12 +983,107 @@ def r7_not_a_time_is_rejected(repo=None):
     return r
 
 
+TZ_LOCAL = ("astimezone", "timestamp", "mktime", "localtime", "fromtimestamp", "utcoffset")
+
+
+def r8_window_bounds_normalised_like_the_listing(repo=None):
+    """'the event filter and the listing agree': both take `starttime` / `endtime` datetimes and turn them into offsets from the
+    epoch before comparing them with name times.  The convention for a datetime without a time zone (it means UTC:
+    `t.replace(tzinfo=utc)` under `t.tzinfo is None`) must be the same on both sides; `t.astimezone(utc)` reads a naive datetime
+    as *local* time, so in a process whose zone is not UTC the filter's window is shifted against the listing's.  Sibling
+    agreement on the values derived from the two parameters (def-use closure in the flat views): both sides apply
+    `.replace(tzinfo=...)` under a `tzinfo` test, neither calls a method that goes through the local time zone."""
+    r = Rule("C15.R8", "the event filter normalises its window bounds like the listing: a datetime without a time zone means UTC, nothing goes through the local zone")
+    ml = pyfront.mod("list_drf", repo)
+    mw = pyfront.mod("watchdog_drf", repo)
+
+    def side(m, q):
+        """(calls that go through the local zone, `.replace(tzinfo=..)` calls under a `tzinfo is None` test) on values derived
+        from the two parameters in the flat view of q (private helpers inlined)"""
+        f = m.flat(q).fn()
+        derived = {"starttime", "endtime"} & {a.arg for a in f.args.args + f.args.kwonlyargs}
+        if len(derived) != 2:
+            raise AnalysisError("%s: parameters starttime / endtime not found" % q)
+        return scan(m, f, derived, 0)
+
+    def scan(m, f, derived, depth):
+        derived = set(derived)
+        changed = True
+        while changed:
+            changed = False
+            for n in ast.walk(f):
+                if isinstance(n, ast.Assign) and len(n.targets) == 1 and isinstance(n.targets[0], ast.Name) and n.targets[0].id not in derived \
+                        and any(isinstance(x, ast.Name) and x.id in derived for x in ast.walk(n.value)):
+                    derived.add(n.targets[0].id)
+                    changed = True
+        par = {}
+        for n in ast.walk(f):
+            for ch in ast.iter_child_nodes(n):
+                par[ch] = n
+        local, repl = [], []
+        for c in ast.walk(f):
+            # a module function that was not inlined (called in an argument position) and is handed a derived value
+            if isinstance(c, ast.Call) and isinstance(c.func, ast.Name) and c.func.id in m.functions and depth < 2:
+                h = m.functions[c.func.id]
+                ps = [a.arg for a in h.args.args]
+                dn = {ps[i] for i, a in enumerate(c.args) if i < len(ps) and any(isinstance(x, ast.Name) and x.id in derived for x in ast.walk(a))}
+                dn |= {k.arg for k in c.keywords if k.arg in ps and any(isinstance(x, ast.Name) and x.id in derived for x in ast.walk(k.value))}
+                if dn:
+                    l2, r2 = scan(m, h, dn, depth + 1)
+                    local += l2
+                    repl += r2
+                continue
+            if not (isinstance(c, ast.Call) and isinstance(c.func, ast.Attribute)):
+                continue
+            if not any(isinstance(x, ast.Name) and x.id in derived for x in ast.walk(c.func.value)):
+                continue
+            if c.func.attr in TZ_LOCAL:
+                local.append(c)
+            elif c.func.attr == "replace" and any(k.arg == "tzinfo" for k in c.keywords):
+                guarded = False
+                p_ = par.get(c)
+                while p_ is not None:
+                    if isinstance(p_, (ast.If, ast.IfExp)) and "tzinfo" in ast.unparse(p_.test):
+                        guarded = True
+                    p_ = par.get(p_)
+                if guarded:
+                    repl.append(c)
+        return local, repl
+    la, ra = side(ml, "ilsdrf")
+    lb, rb = side(mw, H + ".__init__")
+    if la:
+        y = la[0]
+        r.violation("python/digital_rf/list_drf.py", "ilsdrf", norm(ast.unparse(y))[:80], "the listing converts a window bound with %s(), which reads a "
+                    "datetime without a time zone as local time, while the event filter takes it as UTC" % y.func.attr, line=y.lineno)
+    elif len(ra) >= 1:
+        r.ok("python/digital_rf/list_drf.py:%s ilsdrf" % ra[0].lineno, "a bound without a time zone is taken as UTC (`%s` under a tzinfo test); no call "
+             "through the local time zone" % norm(ast.unparse(ra[0]))[:60])
+    else:
+        raise AnalysisError("ilsdrf: how a window bound without a time zone is normalised was not recognised")
+    if lb:
+        y = lb[0]
+        r.violation(WD, H + ".__init__", norm(ast.unparse(y))[:80], "the event filter converts a window bound with %s(), which reads a datetime "
+                    "without a time zone as local time, while the listing takes it as UTC (replace(tzinfo=utc) under `tzinfo is None`): in a "
+                    "process whose time zone is not UTC the filter's window is shifted by the UTC offset against the listing's - files the "
+                    "listing shows are not dispatched and vice versa" % y.func.attr, line=y.lineno)
+    elif len(rb) >= 1:
+        r.ok("%s:%s %s.__init__" % (WD, rb[0].lineno, H), "a bound without a time zone is taken as UTC, as in the listing; no call through the local "
+             "time zone")
+    else:
+        raise AnalysisError("%s.__init__: how a window bound without a time zone is normalised was not recognised" % H)
+    r.guard(2)
+    return r
+
+
 def rules(repo=None):
-    return [lambda: r7_not_a_time_is_rejected(repo), lambda: r1_same_constants(repo), lambda: r2_tables_agree(repo), lambda: r3_no_tmp_no_dirs(repo),
+    return [lambda: r8_window_bounds_normalised_like_the_listing(repo), lambda: r7_not_a_time_is_rejected(repo), lambda: r1_same_constants(repo), lambda: r2_tables_agree(repo), lambda: r3_no_tmp_no_dirs(repo),
             lambda: r4_move_conversion(repo), lambda: r5_inclusive_window(repo), lambda: r6_window_per_path(repo)]
 
 
 EXPLANATION = (
+    'R8: on the values derived from the starttime / endtime parameters (private helpers inlined) both ilsdrf and the handler '
+    'constructor apply replace(tzinfo=...) under a tzinfo test and neither calls a method that goes through the local time zone '
+    '(astimezone, timestamp, mktime ...). '
     'R1: the six regexes.append sites of DigitalRFEventHandler use only the RE_* constants imported from list_drf. R2: '
     'for all 36 flag rows the union of registered path regexes (abstract execution of the if/elif chains) is compared as '
     "a regular language with the listing's composition <dir>/<SUBDIR>/<file regex chosen by _yield_matching_files> and "
